@@ -8,21 +8,27 @@ LEVEL = "proof"
 TECHNIQUE = ("Coq theorems (induction over all request histories) over a hand-written sequential Gallina model of the path tree "
              "(childNodes/childRefs/childRefNames/deleted, renameChildTo, notifyNameChange, markChildDeleted) composed with a path-addressed "
              "backend model (PathFS); model and backend twin tied to the code by a differential against the real Server.Handle")
-LEVEL_TEXT = ("Proved in Coq for every backend and state: fencing - a request through a fid whose path node is marked deleted is refused by the guard "
-              "(EINVAL; ENOENT for a walk to a child) with no backend call in the handler (8 single-fid request kinds, child walks, Tlink's guard); "
-              "markChildDeleted marks EVERY path node at or below the victim (no assumption on the shape of the node graph) so every fidRef there is "
-              "fenced, leaves the name without a path node, and a later binding gets a fresh non-deleted node; an xattr fid cannot be cloned; the "
-              "refs at a moved entry are told their new parent File and name. Proved by induction over ALL histories for EVERY backend: C08_tree_inv "
-              "(childRefs/childRefNames agree, registered refs are live and sit under their parent's node, live non-deleted refs are registered, "
-              "childNodes injective, ids in range). Partial (Refs/Coherent*.v, Refs/Notified*.v): C08_coherent for histories without Tremove/Trename/Trenameat "
-              "(Tunlinkat included), C08_notified for the fidRefs below a moved directory. NOT proved: tree_closed (deleted downward closed, no panic; needs B2), full C08_coherent / "
-              "C08_notified - covered by the differential: every run replays generated create/mkdir/walk/clone/rename/renameat/unlinkat/remove/clunk "
-              "histories (depth <= 4, many fids on equal and nested paths, renames over existing targets, subtree moves, refused renames, re-created "
-              "names) on the real server against the Go twin of PathFS, asks GetAttr through every bound fid after each change (inode id must be the "
-              "one the fid was bound to), checks that fenced requests reach no backend call, runs a gated unlink-vs-walk scenario, and compares "
-              "replies, call logs and a dump of the server's path tree (childRefs vs childRefNames) with the model.")
-LEVEL_NOTE = ("Sequential model; the backend is PathFS (assumption B3) and the server its only writer (B4). Coherence is proved for the "
-              "model+PathFS composition; the model is tied to the Go code by the differential only.")
+LEVEL_TEXT = ("Proved in Coq. (1) History theorem, every backend: C08_tree_inv (childRefs/childRefNames agree, registered refs are live and sit "
+              "under their parent's node, live non-deleted refs are registered, childNodes injective, ids in range). (2) History theorems for the "
+              "PathFS backend (pathB, Refs/Coherent*.v, Refs/Notified*.v; they use (1)): C08_coherent - after every history, all request kinds, "
+              "every live non-fenced fid reaches the object it was bound to; C08_no_tree_panic; C08_notified - the Renamed calls of a rename are "
+              "exactly the registered fidRefs at and below the moved entry, parents first. (3) Per-request theorems, every backend and every state "
+              "(guard unfoldings, not history theorems): fencing - a request through a fid whose path node is marked deleted is refused (EINVAL; "
+              "ENOENT for a walk to a child) with no backend call in the handler (8 single-fid request kinds, child walks, Tlink's guard); an "
+              "xattr fid cannot be cloned; an unlinked name has no path node and a later binding gets a fresh non-deleted node; one callback of "
+              "renameChildTo tells the new parent File and name. C08_fenced_subtree (markChildDeleted marks EVERY path node at or below the victim) "
+              "is an induction over the node graph of an arbitrary state. NOT proved: tree_closed for arbitrary backends (deleted downward "
+              "closed; needs B2). Every run replays generated create/mkdir/walk/clone/rename/renameat/unlinkat/remove/clunk histories (depth <= 4, "
+              "many fids on equal and nested paths, renames over existing targets, subtree moves, refused renames, re-created names) on the real "
+              "server against the Go twin of PathFS and evaluates the stated clauses on the observed behaviour, independently of the model.")
+LEVEL_NOTE = ("Sequential model; for (2) the backend is PathFS (assumption B3) and the server its only writer (B4). TESTED on the real code on "
+              "every run (Cases.property_holds on the observation only): GetAttr through every bound fid after each tree change returns the inode "
+              "the fid was bound to (the harness's own bookkeeping, not the Coq model); a request through a fenced fid is answered EINVAL/ENOENT "
+              "and reaches no backend call; within a request a File is told its new name after its parent File; the dumped childRefs and "
+              "childRefNames agree; no File used after Close; a gated unlink-vs-walk scenario. A history on which implementation and model "
+              "disagree (replies, per-request call log, path-tree dump) is reported as a VIOLATION with that history as replay. The harness reads "
+              "unexported fields (pathNode.childRefs/childRefNames/childNodes/deleted, fidRef.file, server.pathTree): renaming one breaks its "
+              "compilation and is reported as a violation. The model is tied to the Go code by the differential only.")
 DESIGN_REF = "6/C08"
 ASSUMPTIONS = [
     "B3: the backend is PathFS (path-addressed, Renamed rewrites the path from parent.path/name); B4: the server is the only writer of the tree",
